@@ -450,6 +450,12 @@ class Report:
         self.violations.append((what, {"kind": "no-failing-input-found", "broken": what, "detail": detail}))
 
     def finish(self, level="proof"):
+        e2e_mod = sys.modules.get("e2e")
+        if e2e_mod is not None and getattr(e2e_mod, "PANICS", None):
+            for msg in sorted(set(e2e_mod.PANICS))[:5]:
+                self.fail("%s: a task of the proxy panicked during the end-to-end scenarios (the shipped profile aborts the process on panic): %s" % (self.pid, msg),
+                          {"kind": "failing-input", "scenario": "panic message in the proxy's stderr", "message": msg})
+            e2e_mod.PANICS.clear()
         os.makedirs(EVID, exist_ok=True)
         os.makedirs(REPLAY, exist_ok=True)
         wall = time.time() - self.t0
